@@ -281,7 +281,7 @@ func main() {
 		case r.Corr != "":
 			// the Spec checks already ran on this very observation and are reported separately; a
 			// disagreement here means the model does not admit what the client did
-			rep.Fail("correspondence", "model-admits:"+r.Spec.Mode, r.Corr, map[string]interface{}{"spec": r.Spec, "line": r.Line, "driver": r.DriverOut})
+			rep.Fail("correspondence", "model-admits:"+r.Spec.Mode, r.Corr, map[string]interface{}{"spec": r.Spec, "line": r.Line, "driver": r.DriverOut, "connections": r.Conns, "client_log": r.Log})
 		case r.Admitted:
 			rep.Count("model-admits")
 		}
